@@ -1,5 +1,6 @@
 """Property id -> suites, assumptions, trusted base."""
-from . import store_suite, mc_checks, mc_suite
+import re
+from . import store_suite, mc_checks, mc_suite, sim_suite, sim_monitors, snap_suite
 
 TRUSTED_BASE = [
     "Lean 4.33.0 kernel (thorough tier: re-checked with leanchecker); axioms per theorem as listed under coverage.axioms (allowed: propext, Classical.choice, Quot.sound)",
@@ -22,7 +23,90 @@ def mc(name, prof, **kw):
     return lambda v, tier, seed: mc_checks.mc_property(v, tier, seed, name, prof, d1_text=D1, **kw)
 
 
+def sim(name, which, prof=None, n_quick=600, n_thorough=30000, nontrivial=None):
+    def run(v, tier, seed):
+        mon = (lambda lines, impl: sim_monitors.monitor(lines, impl, which)) if which else None
+        scen, impl, model, bad, monfail = sim_suite.run(v, tier, seed, prof=prof, n_quick=n_quick, n_thorough=n_thorough, name=name,
+                                                        monitor=mon, nontrivial=nontrivial or (lambda st: st["received"]))
+        sim_suite.report(v, bad, monfail, name, monitor=mon)
+        return len(bad) + len(monfail)
+    return run
+
+
+def sim_replay(v, path):
+    from .common import run_pair
+    lines = [l.strip() for l in open(path) if l.strip() and not l.startswith("#")]
+    i, m = run_pair("sim", [sim_suite.block("x", lines)], jobs=1)
+    d = sim_suite.compare(i.get("x", []), [l for l in m.get("x", []) if not l.startswith(("vres=", "V ", "R "))])
+    print("\n".join(l[:300] for l in i.get("x", [])[:60]))
+    mon = sim_monitors.monitor(lines, i.get("x", []), v.pid)
+    if d or mon:
+        print("DIFF:", d, "MONITOR:", mon)
+        v.violation("replay.txt", open(path).read())
+
+
+def snapshot_check(walk, routes):
+    def run(v, tier, seed):
+        scen, impl, model, bad = snap_suite.run_snapshot(v, tier, seed, walk=walk)
+        snap_suite.report(v, bad, "snapshot")
+        n = len(bad)
+        if walk:
+            n += snap_suite.judge_sim_path_covered(v, scen, impl, model, "snapshot", D1)
+        if routes:
+            n += snap_suite.run_two_routes(v, tier, seed)
+        return n
+    return run
+
+
+def pred_check(v, tier, seed):
+    fields = mc_suite.ALL_FIELDS + ("P",)
+    scen, impl, model, bad = mc_suite.run(v, tier, seed, prof=mc_suite.profile(staged=0.4, two_runs=0.3, p_crash=0.2), n_quick=500,
+                                          n_thorough=8000, cfg_lines=["preds"], name="predicates", fields=fields)
+    mc_suite.report_disagreements(v, bad, "predicates", fields)
+    # D11: at the start state of a run (depth in the current run = 0) `state_depth_current_run(0)` must accept by its
+    # documentation; the code counts trace entries (the McStarted entry included) and rejects
+    n11 = nstart = nevals = 0
+    for nm, lines in scen:
+        runs = mc_suite.split_runs(impl.get(nm, []))
+        runlines = [l for l in lines if l.startswith(("run ", "runfrom "))]
+        for k, r in enumerate(runs):
+            nevals += len(r["E"]) * 40
+            if k < len(runlines) and runlines[k].startswith("run ") and r["E"]:
+                nstart += 1
+                m = re.search(r"isd0=(\d)", r["E"][0])
+                if m and m.group(1) == "1":
+                    n11 += 1
+    if n11:
+        if mc_checks.has_finding(v.pid, "D11-depth-current-run"):
+            v.known_finding("D11-depth-current-run: invariants::state_depth_current_run(0) rejects the start state of a run "
+                            f"(observed at {n11} of {nstart} run start states)")
+        else:
+            v.violation("predicates-D11.txt", "# state_depth_current_run(0) rejects the start state of a run\n")
+            return len(bad) + 1
+    v.coverage.setdefault("predicates", {}).update({"predicate_evaluations": nevals, "run_start_states_checked": nstart,
+                                                    "known_finding_D11_hits": n11})
+    return len(bad)
+
+
 PROPS = {
+    "C04": {"ready": True, "partial": PARTIAL_D1 + "; the inclusion of whole simulated executions (R4) is checked on the implementation, not proved",
+            "replay": sim_replay, "suites": [snapshot_check(walk=10, routes=False)]},
+    "C05": {"ready": True, "replay": sim_replay,
+            "suites": [sim("sim_network", "C05", dict(p_fault=0.6, p_link=0.6, p_crash=0.1, nodes=(2, 3), procs=(2, 4)),
+                           nontrivial=lambda st: st["received"] and (st["faults_on"] or st["links"]))]},
+    "C06": {"ready": True, "replay": sim_replay,
+            "suites": [sim("sim_time", "C06", dict(p_random_delay=0.7, p_skew=0.6, p_clock=0.4, p_crash=0.1),
+                           nontrivial=lambda st: st["received"] and st["timers_fired"])]},
+    "C08": {"ready": True, "replay": sim_replay,
+            "suites": [sim("sim_crash", "C08", dict(p_crash=0.9, nodes=(2, 3), procs=(2, 4), ops=(10, 24)),
+                           nontrivial=lambda st: st["crash"] and st["received"])]},
+    "C15": {"ready": True, "replay": sim_replay, "suites": [snapshot_check(walk=0, routes=True)]},
+    "C17": {"ready": True, "replay": sim_replay,
+            "partial": "whole-run consistency of logs/counters is judged by the monitor and the bit-exact correspondence; theorems cover the per-send bookkeeping",
+            "suites": [sim("sim_logs", "C17", dict(p_fault=0.5, p_crash=0.4, p_link=0.3, nodes=(2, 3), procs=(2, 4)),
+                           nontrivial=lambda st: st["received"] and (st["dropped"] or st["crash"]))]},
+    "C19": {"ready": True, "replay": mc_checks.replay, "suites": [pred_check],
+            "partial": "state_depth_current_run is proved only in its sound half (finding D11); time_limit (wall clock) is outside the model"},
     "C02": {"ready": True, "partial": PARTIAL_D1, "replay": mc_checks.replay,
             "suites": [mc("mc_paths", dict(collect_always=True, depth=(2, 4), caches=("full", "disabled")), refenum=True)]},
     "C03": {"ready": True, "partial": PARTIAL_D1, "replay": mc_checks.replay,
@@ -32,7 +116,7 @@ PROPS = {
                                             p_fault=0.05, caches=("disabled", "full")), refenum=True,
                           nontrivial=lambda st: st["timers"])]},
     "C09": {"ready": True, "replay": mc_checks.replay,
-            "suites": [mc("mc_rerun", dict(two_runs=1.0, staged=0.3))]},
+            "suites": [mc("mc_rerun", dict(two_runs=1.0, staged=0.3)), snapshot_check(walk=0, routes=False)]},
     "C10": {"ready": True, "replay": mc_checks.replay, "partial": PARTIAL_D1,
             "suites": [mc("mc_bfs_dfs", dict(depth=(2, 4)), cross=[("dfs", "full"), ("bfs", "full"), ("dfs", "disabled"), ("bfs", "disabled")],
                           n_quick=200)]},
